@@ -2165,6 +2165,8 @@ mod api {
             }
             o.sample(json!({"base": base, "direct": direct}));
         }
+        let ac_file: std::collections::BTreeMap<String, String> = serde_json::from_str(&std::fs::read_to_string(format!("{}/autocorrect.json", crate::verif_driver::data_dir())).unwrap()).unwrap();
+        let ac_of = |w: &str| -> Option<String> { ac_file.get(w).map(|c| parser.convert(c)) };
         // C08 soundness against the dictionary FILE (parsed here, not through the engine's loader): every Bengali candidate is a word of
         // dictionary.json code point for code point (the 21 words spelled with a ZWNJ included), the transliteration, the converted
         // auto-correct entry, or a suffix-built form of a dictionary word
@@ -2185,6 +2187,39 @@ mod api {
                 }
                 o.nontrivial += 1;
             }
+        }
+        // the dictionary search itself (include_from_dictionary: the one function whose contract is assumed), against an oracle that
+        // shares nothing with it but the two dependencies: the pattern okkhor builds for the typed word, compiled by the regex crate,
+        // matched against the words of dictionary.json: soundness (C08, first sentence) -- every offered dictionary word that is not
+        // a suffix-built form matches the pattern of the typed word
+        {
+            let mut not_offered = 0usize;
+            let oracle = super::api::Oracle::new();
+            let rp = Parser::new_regex();
+            let mut all: Vec<&String> = dict.iter().collect();
+            all.sort();
+            let words: Vec<&str> = if bound >= 2 { vec!["ami", "amar", "kotha", "bisoy", "sesh", "hotat", "ebong", "rik", "allah", "shah", "xen", "qu", "fol", "vab", "wa", "zonmo", "jol", "gan", "chele", "thik", "dhaka", "pani", "nodi", "oi", "ou", "uu", "e", "i", "o", "u", "a", "koro", "lekha", "mon", "tumi", "se", "ora", "ei", "ki", "na"] }
+                else { vec!["ami", "kotha", "sesh", "rik", "shah", "xen", "qu", "fol", "vab", "wa", "zonmo", "chele", "dhaka", "oi", "e", "o", "u", "koro", "na"] };
+            for w in words {
+                o.cases += 1;
+                let pat = rp.convert_regex(w);
+                let rgx = match regex::Regex::new(&pat) { Ok(r) => r, Err(_) => continue };
+                let mut s = Sess::new(cfgv.clone());
+                let sg = s.typ(w).unwrap(); s.finish();
+                let list = texts(&sg);
+                // (completeness is not part of any property: the engine searches only the tables its first-letter table names -- for
+                // "oi" the matches ই ঈ ি of other tables are not offered on the unchanged tree; the count is recorded, not judged)
+                not_offered += all.iter().filter(|x| rgx.is_match(x) && !list.contains(x)).count();
+                let translit = parser.convert(w);
+                for c in list.iter() {
+                    if !dict.contains(c) || *c == translit || rgx.is_match(c) || oracle.maybe_suffix_built(w, c) { continue; }
+                    if ac_of(w).as_ref() == Some(c) { continue; }
+                    o.fail(json!({"clause": "C08 every offered dictionary word matches the pattern of the typed word or is a suffix-built form (dictionary search sound)", "history": s.history(), "observed": c}));
+                    break;
+                }
+                o.nontrivial += 1;
+            }
+            o.sample(json!({"dictionary_search_oracle": "okkhor pattern + regex crate over dictionary.json", "matches_in_other_tables_not_offered": not_offered}));
         }
         // C01 (no blow-up): stacked suffix keys ("kor" + "er" x n, "ami" + "re" x n): the list never holds more than the direct
         // hits of the prefixes of the word, one auto-correct entry each, the transliteration and the emoji
